@@ -377,6 +377,13 @@ func runC20(c *rep.Ctx) {
 		case !isEntry[cs.fn]:
 			c.Check("guard", construct, pos, true, "not guarded inside this helper either: propagated to its callers")
 		default:
+			// Is the site guarded under the assumption that amounts are never negative
+			// (x.Cmp(zero) > 0 or x.Cmp(zero) == 0)?  Then it is the historical negative-amount
+			// defect (known finding F6), a different instance from a missing guard.
+			if cs.fn.Graph().GuardedAtAssuming(cs.node, c20Atomizer(cs.fn.Info(), isQuery, nestedView), wantOf(cls), c20NonNegClauses) {
+				construct += "|only-if-amount-nonnegative"
+				how = "the guard is conditional on the amount being positive and this path only excludes a zero amount: a negative amount reaches the mutation"
+			}
 			c.Check("guard", construct, pos, false, "state mutation reachable in a read-only context: helper "+cs.callee.Name()+" ("+derivedWhy[cs.callee]+") is called on a path not dominated by the guard ("+cls+"): "+how)
 		}
 	}
@@ -385,6 +392,22 @@ func runC20(c *rep.Ctx) {
 	c20Markers(c, cg, isQuery, nestedView)
 	c20ReadOnlyEntries(c, cg, writers)
 	c20CFront(c)
+}
+
+// c20NonNegClauses: for every pair of atoms "X.Cmp(Y) > 0" / "X.Cmp(Y) == 0" assume one of them holds.
+func c20NonNegClauses(atoms []string) [][]string {
+	var out [][]string
+	for _, a := range atoms {
+		if strings.HasSuffix(a, " > 0") && strings.Contains(a, ".Cmp(") {
+			z := strings.TrimSuffix(a, " > 0") + " == 0"
+			for _, b := range atoms {
+				if b == z {
+					out = append(out, []string{a, b})
+				}
+			}
+		}
+	}
+	return out
 }
 
 func splitName(k string) (pkg, recv, name string) {
